@@ -61,7 +61,7 @@ theorem negMul_one (n : Nat) (x : Poly) : negMul (1 :: zeroP n) x = x := by
   simp only [negMul]
   rw [hz, mulX_zero]
   have : polyScale 1 x = x := by simp [polyScale]
-  rw [this, polyAdd_zero_right _ _ rfl]
+  rw [this, ep_polyAdd_zero_right _ _ rfl]
 
 theorem negMul_zeroP_left (k : Nat) (y : Poly) : negMul (zeroP k) y = zeroP y.length := by
   induction k generalizing y with
